@@ -1,0 +1,33 @@
+//go:build verif
+
+/*
+Read-only view of the unexported transition list for the verification
+machinery in /verif. Compiled only with -tags verif; adds no behaviour.
+*/
+package lalr
+
+// VerifTrans is one transition of the LALR automaton: a shift/goto
+// (Q --Sym--> To) or a reduction (Q, Rule) with its lookahead symbol ids.
+type VerifTrans struct {
+	Index, Q, To int
+	IsReduce     bool
+	Sym, Rule    int
+	LA           []int
+}
+
+// VerifTransitions returns a copy of every transition with its lookaheads.
+func (l *LALR1) VerifTransitions() []VerifTrans {
+	out := make([]VerifTrans, 0, len(l.trans))
+	for _, t := range l.trans {
+		v := VerifTrans{Index: t.Index, Q: t.q, To: t.to}
+		if t.sym_or_rule&CheckMask != 0 {
+			v.IsReduce = true
+			v.Rule = int(t.sym_or_rule & Mask)
+			v.LA = append([]int(nil), l.LookAheadSet[t.Index]...)
+		} else {
+			v.Sym = int(t.sym_or_rule)
+		}
+		out = append(out, v)
+	}
+	return out
+}
